@@ -3,8 +3,9 @@
    + validateCollateralContainsNonADA + min-ADA of the collateral return output), written from the rule and
    independent of the builder; and (b) a clause-by-clause model of
    pycardano/txbuilder.py::TransactionBuilder._should_add_collateral_return / _set_collateral_return
-   (incl. the nested _add_collateral_input) as the code is NOW (after fix commit 192bddd
-   "a UTxO is chosen as collateral at most once").
+   (incl. the nested _add_collateral_input) as the code is NOW (after fix commits 192bddd "a UTxO is chosen as
+   collateral at most once", 5b2796b "automatic collateral selection respects max_collateral_inputs", 7babc21 "the
+   collateral amount covers the fee buffer and is rounded up", 57d1ac6 "user-supplied collateral is validated").
    Model only — proofs are in CollateralProofs.v. *)
 From Coq Require Import NArith ZArith Ascii String List Bool Lia.
 From PyC Require Import Base Cbor Dict Value.
@@ -86,13 +87,17 @@ Definition collateral_ok (L : lparams) (fee : Z) (colls : list cand)
 (* (b) MODEL of the builder                                               *)
 (* ====================================================================== *)
 Record cparams := mkCP {
-  p_max_fee   : Z;     (* max_tx_fee(context, ref_script_size=self._ref_script_size()) — datum (utils.fee is C07's) *)
-  p_percent   : Z;     (* context.protocol_param.collateral_percent *)
-  p_threshold : Z      (* self.collateral_return_threshold *)
+  p_max_fee    : Z;    (* max_tx_fee(context, ref_script_size=self._ref_script_size()) — datum (utils.fee is C07's) *)
+  p_fee_buffer : Z;    (* self.fee_buffer or 0 *)
+  p_percent    : Z;    (* context.protocol_param.collateral_percent *)
+  p_max_inputs : Z;    (* context.protocol_param.max_collateral_inputs *)
+  p_threshold  : Z     (* self.collateral_return_threshold *)
 }.
 
-(* collateral_amount = max_tx_fee(...) * collateral_percent // 100     (Python // = floor = Z.div) *)
-Definition collateral_amount (P : cparams) : Z := p_max_fee P * p_percent P / 100.
+(* collateral_amount = -(-(max_tx_fee(...) + (self.fee_buffer or 0)) * collateral_percent // 100)
+   Python: unary minus binds tighter than * and //, which associate to the left; // = floor = Z.div *)
+Definition collateral_amount (P : cparams) : Z :=
+  - ((- (p_max_fee P + p_fee_buffer P)) * p_percent P / 100).
 
 (* _should_add_collateral_return:
      collateral_return.coin > max(self.collateral_return_threshold, 1_000_000)
@@ -113,12 +118,22 @@ Definition csort (l : list cand) : list cand := fold_right cinsert [] l.
 (* candidate_inputs.pop() takes from the END of the sorted list *)
 Definition pop_order (l : list cand) : list cand := rev (csort l).
 
+(* de-duplication keeping the first occurrence:
+     unique = []; for utxo in self.collaterals: if utxo not in unique: unique.append(utxo)
+   (also what NonEmptyOrderedSet([c.input for c in self.collaterals]) does in _build_tx_body) *)
+Fixpoint dedup_ids (l : list cand) (seen : list cand) : list cand :=
+  match l with
+  | [] => []
+  | c :: r => if existsb (id_eqb c) seen then dedup_ids r seen else c :: dedup_ids r (c :: seen)
+  end.
+
 Inductive outcome :=
 | ONoop                          (* plain return: _collateral_return / _total_collateral untouched *)
 | OSet (ret : value) (total : Z) (* both fields set *)
+| OErrCount                      (* ValueError "Number of collateral inputs ... exceeds the limit ..." *)
+| OErrScript                     (* ValueError "Collateral input ... is locked by a script ..." *)
 | OErrAmount                     (* ValueError "Minimum collateral amount ... greater than total provided ..." *)
 | OErrMinLovelace.               (* ValueError "Minimum lovelace amount for collateral return ..." *)
-
 
 Section Model.
   (* min_lovelace_post_alonzo(TransactionOutput(collateral_return_address, v), self.context) as a function of v;
@@ -126,7 +141,7 @@ Section Model.
   Variable minl : value -> Z.
   Variable P : cparams.
 
-  (* the while-condition WITHOUT `and candidate_inputs`; Python precedence  a or (b and (0 <= c < m)):
+  (* first conjunct of the while-condition; Python precedence  a or (b and (0 <= c < m)):
        cur_total.coin < collateral_amount
        or self._should_add_collateral_return(cur_collateral_return)
           and 0 <= cur_collateral_return.coin < min_lovelace_post_alonzo(...)
@@ -142,12 +157,13 @@ Section Model.
     negb (existsb (id_eqb c) colls) && negb (script_name (c_type c)) && (2000000 <? coin (c_val c)).
 
   (* _add_collateral_input(cur_total, candidate_inputs); state = (self.collaterals, tmp_val)
-     (Value.__iadd__ mutates tmp_val in place, so the running total survives across the three calls) *)
+     (Value.__iadd__ mutates tmp_val in place, so the running total survives across the three calls);
+     second conjunct: candidate_inputs and len(self.collaterals) < max_collateral_inputs *)
   Fixpoint add_loop (cands : list cand) (st : list cand * value) : list cand * value :=
     match cands with
     | [] => st
     | c :: rest =>
-        if need_more (snd st) then
+        if need_more (snd st) && (Z.of_nat (length (fst st)) <? p_max_inputs P) then
           add_loop rest (if eligible (fst st) c then (fst st ++ [c], v_add (snd st) (c_val c)) else st)
         else st
     end.
@@ -158,14 +174,18 @@ Section Model.
     let s2 := if coin (snd s1) <? collateral_amount P then add_loop (pop_order potentials) s1 else s1 in
     if coin (snd s2) <? collateral_amount P then add_loop (pop_order at_addr) s2 else s2.
 
+  (* from `total_input = Value()` to the end; colls is already de-duplicated *)
   Definition finish (colls : list cand) : outcome :=
-    let total := vsum colls in
-    if coin total <? collateral_amount P then OErrAmount
+    if p_max_inputs P <? Z.of_nat (length colls) then OErrCount
+    else if existsb (fun c => script_name (c_type c)) colls then OErrScript
     else
-      let r := v_sub total (vint (collateral_amount P)) in
-      if negb (should_add_return (p_threshold P) r) then ONoop
-      else if coin r <? minl r then OErrMinLovelace
-      else OSet r (collateral_amount P).
+      let total := vsum colls in
+      if coin total <? collateral_amount P then OErrAmount
+      else
+        let r := v_sub total (vint (collateral_amount P)) in
+        if negb (should_add_return (p_threshold P) r) then ONoop
+        else if coin r <? minl r then OErrMinLovelace
+        else OSet r (collateral_amount P).
 
   (* plutus_or_ref: a Plutus script in the fake witness set or a non-empty _reference_scripts;
      has_addr: collateral_return_address is given; explicit: self.collaterals on entry.
@@ -179,15 +199,11 @@ Section Model.
                    | [] => fst (auto_select inputs potentials at_addr)
                    | _ => explicit
                    end in
-      (colls, finish colls).
+      let colls' := dedup_ids colls [] in
+      (colls', finish colls').
 End Model.
 
 (* _build_tx_body: collateral = NonEmptyOrderedSet([c.input for c in self.collaterals]) — first occurrence kept *)
-Fixpoint dedup_ids (l : list cand) (seen : list cand) : list cand :=
-  match l with
-  | [] => []
-  | c :: r => if existsb (id_eqb c) seen then dedup_ids r seen else c :: dedup_ids r (c :: seen)
-  end.
 Definition body_collateral (colls : list cand) : list cand := dedup_ids colls [].
 
 (* ---------- serialized outputs ---------- *)
